@@ -34,8 +34,8 @@ def run_loop(binfo, scratch, script, dialect, plan_extra=(), chunks=None, eof=No
     w = scratch.new()
     os.makedirs(os.path.join(w, "sb"))
     for fn, text in (files or {}).items():
-        with open(os.path.join(w, "sb", fn), "w") as f:
-            f.write(text)
+        with open(os.path.join(w, "sb", fn), "wb") as f:
+            f.write(text if isinstance(text, bytes) else text.encode())
     with open(os.path.join(w, "script"), "w") as f:
         f.write(script)
     line = "stdin ../script"
@@ -55,8 +55,8 @@ def run_batch(binfo, scratch, text, dialect, cpu=25, files=None):
     sb = os.path.join(w, "sb")
     os.makedirs(sb)
     for fn, t in (files or {}).items():
-        with open(os.path.join(sb, fn), "w") as f:
-            f.write(t)
+        with open(os.path.join(sb, fn), "wb") as f:
+            f.write(t if isinstance(t, bytes) else t.encode())
     with open(os.path.join(sb, "batch.as"), "w") as f:
         f.write(text)
     argv = [binfo["aldor"]] + lib_args(dialect) + buildlib.aldor_args() + ["-Ginterp", "batch.as"]
@@ -96,6 +96,15 @@ def markers_only(ev):
     return [e for e in ev if e != "E"]
 
 
+LIB_SRC = b'''#include "axllib"
+Foo: with { bar: SingleInteger -> SingleInteger; baz: () -> String } == add {
+	bar(n: SingleInteger): SingleInteger == n*n+1;
+	baz(): String == "lx";
+}
+'''
+LIB_AO = {}	# "lx.ao" -> bytes, filled by main() from a fault-free compile of LIB_SRC
+
+
 def gen_session(seed, i, tier, special=None):
     rng = vsim.Rng(seed, "c13-session", i, special or "")
     dialect = rng.weighted([("axllib", 7), ("libaldor", 3), ("axllib-verbose", 2)])
@@ -104,6 +113,8 @@ def gen_session(seed, i, tier, special=None):
     g = sessgen.Gen(rng.fork("forms"), dialect, special=special)
     forms = g.generate(n, bad)
     aux = dict(g.files)
+    if g.uses_lib:
+        aux.update(LIB_AO)
     chunks = [rng.loguniform(1, 64) for _ in range(rng.range(1, 40))] if rng.chance(3, 4) else None
     plan = []
     if rng.chance(2, 3):
@@ -210,6 +221,7 @@ def main(argv):
             rp = json.load(open(replay))
             forms = [sessgen.Form(f["kind"], f["text"], f["good"], f["marker"], f["value"]) for f in rp["forms"]]
             s = dict(rp["session"], forms=forms)
+            s["files"] = dict((k, v.encode("latin-1") if k.endswith(".ao") else v) for k, v in (s.get("files") or {}).items())
             v, info = judge_session(binfo, scratch, s)
             vsim.say("replay: %s" % v)
             if v:
@@ -217,6 +229,12 @@ def main(argv):
                 return 1
             return 0
 
+        if not replay:
+            w0 = scratch.new()
+            r0 = worlds.compile_world(binfo, w0, {"lx.as": LIB_SRC}, ["-Fao"], ["lx.as"], cpu=60)
+            vsim.cleanup_world(w0)
+            if r0.rc == 0 and "lx.ao" in r0.files:
+                LIB_AO["lx.ao"] = r0.files["lx.ao"]
         nsess = int(os.environ.get("VERIF_C13_SESSIONS", 0)) or (500 if tier == "quick" else 8000)
         sessions = [gen_session(seed, i, tier) for i in range(nsess)]
         # dedicated sessions for a known finding (an import inside a rejected step survives when the
@@ -294,7 +312,8 @@ def main(argv):
                     s2 = s3
             rp = vsim.write_replay(PID, "seed%d-s%d" % (seed, i), {
                 "property": PID, "seed": seed, "key": key, "detail": detail, "source_key": binfo["key"],
-                "session": dict((k, s2.get(k)) for k in ("dialect", "special", "chunks", "plan", "final_nl", "cut", "files")),
+                "session": dict(dict((k, s2.get(k)) for k in ("dialect", "special", "chunks", "plan", "final_nl", "cut")),
+                                files=dict((k, v.decode("latin-1") if isinstance(v, bytes) else v) for k, v in (s2.get("files") or {}).items())),
                 "forms": [f.to_json() for f in s2["forms"]],
                 "script": sessgen.script_of(s2["forms"], s2["dialect"], s2["final_nl"]),
                 "other_failing_sessions": len(ids) - 1})
